@@ -103,23 +103,31 @@ def run(c, replay):
     from concurrent.futures import ThreadPoolExecutor
     import progen
     t0jobs = []
-    for k in range(int(os.environ.get("T0RUNS", "40")) if c.tier == "quick" else 400):
-        p = progen.gen_time0_program(r)
+    nt0 = 160 if c.tier == "quick" else 1600
+    for k in range(nt0):
+        if k % 4 == 0:
+            p, th, spin = progen.gen_time0_program(r), r.choice([3, 4, 4, 6]), 0
+        else:
+            # costly self-rescheduling events: the stopping worker finishes its iteration (and possibly the round) in the main loop
+            # while the others complete the round in the shutdown code
+            lps = r.choice([4, 4, 5, 6])
+            p, th, spin = progen.gen_time0_chain_program(r, lps), lps, r.choice([10000, 20000, 40000])
         text = progen.render(p)
         pf = os.path.join(ctx["sd"], "t0_%d.txt" % k)
         open(pf, "w").write(text)
-        t0jobs.append((k, text, pf, r.choice([3, 4, 4, 6]), r.choice([0, 0, 20, 100]), r.choice([None, None, "10,1,300,3", "11,-1,200,2", "10,0,500,4"])))
+        t0jobs.append((k, text, pf, th, r.choice([0, 1, 1, 20, 100]), r.choice([None, None, "10,1,300,3", "11,-1,200,2", "10,0,500,4"]) if not spin else None, spin))
 
     def t0_one(job):
-        k, text, pf, th, gp, delay = job
+        k, text, pf, th, gp, delay, spin = job
         sf = os.path.join(ctx["sd"], "t0stats_%d" % k)
-        res = S.run_sim(ctx["exe"], pf, threads=th, ckpt=r.choice([0, 1, 3]) if False else 2, gvt=gp, stats=sf, watchdog=15, timeout=40, delay=delay)
+        res = S.run_sim(ctx["exe"], pf, threads=th, ckpt=2 if not spin else 0, gvt=gp, stats=sf, watchdog=15, timeout=40, delay=delay, spin_ns=spin)
         return job, res, sf + ".bin"
     with ThreadPoolExecutor(6) as ex:
         t0res = list(ex.map(t0_one, t0jobs))
     t0_ok = 0
-    for (k, text, pf, th, gp, delay), res, sf in t0res:
-        desc = dict(threads=th, checkpoint_interval=2, gvt_period_us=gp, ranks=1, variant="stop", injected_delay=delay, cmd=res.cmd)
+    for (k, text, pf, th, gp, delay, spin), res, sf in t0res:
+        desc = dict(threads=th, checkpoint_interval=2 if not spin else 0, gvt_period_us=gp, ranks=1, variant="stop", injected_delay=delay, event_cost_ns=spin,
+                    cmd=res.cmd + ("  with VERIF_EVENT_SPIN_NS=%d" % spin if spin else ""))
         if res.sanitizer:
             C.sanitizer_violation(c, res, text, desc)
             continue
